@@ -546,10 +546,22 @@ class SequenceEncoder(AbstractItemEncoder):
 
             namedTypes = value.componentType
 
-            for idx, component in enumerate(value.values()):
+            for idx in range(len(namedTypes) or len(value)):
                 if namedTypes:
                     namedType = namedTypes[idx]
 
+                    # an absent OPTIONAL component must not come into
+                    # being (possibly as an empty value) by looking at it
+                    if (namedType.isOptional and
+                            value.getComponentByPosition(
+                                idx, instantiate=False) is univ.noValue):
+                        if LOG:
+                            LOG('not encoding OPTIONAL component %r' % (namedType,))
+                        continue
+
+                component = value[idx]
+
+                if namedTypes:
                     if namedType.isOptional and not component.isValue:
                         if LOG:
                             LOG('not encoding OPTIONAL component %r' % (namedType,))
